@@ -255,31 +255,57 @@ Lemma Kinv_l_object g L t fa fk :
   Kinv L -> (forall a k, incl k a -> incl (fk k) (fa a)) -> Kinv (l_object g L t fa fk).
 Proof.
   intros K H. unfold l_object. destruct t as [o|c].
-  - destruct (nth_error (los L) o) as [r|] eqn:E; auto. destruct (lo_live r); auto.
+  - destruct (nth_error (los L) o) as [r|] eqn:E; auto.
+    destruct (lo_live r && negb (lclass_builtin L (lo_cls r))); auto.
     apply Kinv_set_obj; auto. cbn. intros x Hx. apply fresh_now_incl in Hx. revert x Hx.
     apply H. destruct K as [_ [_ [K2 _]]]. eauto.
-  - destruct (nth_error (lcs L) c) as [r|] eqn:E; auto.
+  - destruct (nth_error (lcs L) c) as [r|] eqn:E; auto. destruct (lc_builtin r); auto.
     eapply Kinv_set_cls; eauto; cbn [lc_kept lc_asked lc_okept lc_oasked].
     + destruct K as [_ [K1 _]]. eauto.
     + intros x Hx. apply filter_In in Hx. destruct Hx as [Hx _]. revert x Hx. apply H.
       destruct K as [_ [_ [_ K3]]]. eauto.
 Qed.
 
-Lemma Kinv_l_declare g L c l : Kinv L -> Kinv (l_declare g L c l).
+Lemma Kinv_l_declare g L c lh l : Kinv L -> incl l lh -> Kinv (l_declare g L c lh l).
 Proof.
-  intros K. unfold l_declare. destruct (nth_error (lcs L) c) as [r|] eqn:E; auto.
+  intros K Hl. unfold l_declare. destruct (nth_error (lcs L) c) as [r|] eqn:E; auto.
   eapply Kinv_set_cls; eauto; cbn [lc_kept lc_asked lc_okept lc_oasked].
   - destruct K as [_ [K1 _]].
-    apply incl_app; [apply incl_appl; eauto|apply incl_appr; apply fresh_now_incl].
+    apply incl_app; [apply incl_appl; eauto|apply incl_appr; eapply incl_tran; [apply fresh_now_incl|auto]].
   - destruct K as [_ [_ [_ K3]]]. eauto.
 Qed.
 
-Lemma Kinv_l_only L c l : Kinv L -> Kinv (l_only L c l).
+Lemma Kinv_l_only L c lh l : Kinv L -> incl l lh -> Kinv (l_only L c lh l).
 Proof.
-  intros K. unfold l_only. destruct (nth_error (lcs L) c) as [r|] eqn:E; auto.
-  eapply Kinv_set_cls; eauto; cbn [lc_kept lc_asked lc_okept lc_oasked].
-  - apply incl_refl.
-  - destruct K as [_ [_ [_ K3]]]. eauto.
+  intros K Hl. unfold l_only. destruct (nth_error (lcs L) c) as [r|] eqn:E; auto.
+  eapply Kinv_set_cls; eauto; cbn [lc_kept lc_asked lc_okept lc_oasked]; auto.
+  destruct K as [_ [_ [_ K3]]]. eauto.
+Qed.
+
+Lemma lo_incl_hi_impl L c : Kinv L -> incl (impl_lo L c) (impl_hi L c).
+Proof. intros [_ [K1 _]]. apply impl_f_mono. auto. Qed.
+
+Lemma lo_direct_incl_hi L t : Kinv L -> incl (lo_direct L t) (hi_direct L t).
+Proof.
+  intros K. unfold lo_direct, hi_direct. destruct t as [o|c].
+  - destruct (nth_error (los L) o) as [r|] eqn:E; [|apply incl_refl].
+    apply incl_app; [apply incl_appl|apply incl_appr; apply lo_incl_hi_impl; auto].
+    destruct K as [_ [_ [K2 _]]]. eauto.
+  - destruct (nth_error (lcs L) c) as [r|] eqn:E; [|apply incl_refl].
+    apply incl_app; [apply incl_appl|apply incl_appr, incl_refl]. destruct K as [_ [_ [_ K3]]]. eauto.
+Qed.
+
+Lemma lo_dpb_incl_hi L t : Kinv L -> incl (lo_dpb L t) (hi_dpb L t).
+Proof.
+  intros K. unfold lo_dpb, hi_dpb. destruct t as [o|c].
+  - destruct (nth_error (los L) o) as [r|] eqn:E; [|apply incl_refl]. destruct K as [_ [_ [K2 _]]]. eauto.
+  - destruct (nth_error (lcs L) c) as [r|] eqn:E; [|apply incl_refl]. destruct K as [_ [_ [_ K3]]]. eauto.
+Qed.
+
+Lemma nargs_lo_incl_hi L l : Kinv L -> incl (nargs_lo L l) (nargs_hi L l).
+Proof.
+  intros K x. unfold nargs_lo, nargs_hi. rewrite !in_flat_map. intros [a [Ha Hx]]. exists a. split; auto.
+  destruct a; cbn in *; auto; [eapply lo_dpb_incl_hi|eapply lo_direct_incl_hi]; eauto.
 Qed.
 
 Lemma Kinv_step g L o : Kinv L -> Kinv (lstep g L o).
@@ -288,7 +314,7 @@ Proof.
   - (* NewClass *) destruct K as [W [K1 [K2 K3]]]. split; [|split; [|split]]; cbn; auto.
     + intros c r b Hc Hin. apply nth_error_snoc in Hc. destruct Hc as [[_ Hc]|[-> ->]].
       * eapply W; eauto.
-      * cbn in Hin. apply filter_In in Hin. destruct Hin as [_ Hin]. apply Nat.ltb_lt in Hin. lia.
+      * cbn in Hin. rewrite In_dedup in Hin. apply filter_In in Hin. destruct Hin as [_ Hin]. apply Nat.ltb_lt in Hin. lia.
     + intros c r Hc. apply nth_error_snoc in Hc. destruct Hc as [[_ Hc]|[-> ->]]; eauto. cbn. apply incl_refl.
     + intros c r Hc. apply nth_error_snoc in Hc. destruct Hc as [[_ Hc]|[-> ->]]; eauto. cbn. apply incl_refl.
   - (* NewInstance *) destruct (Nat.ltb c (length (lcs L))); auto.
@@ -296,15 +322,15 @@ Proof.
     intros o r Ho. apply nth_error_snoc in Ho. destruct Ho as [[_ Ho]|[-> ->]]; eauto. cbn. apply incl_refl.
   - (* DropInstance *) destruct (nth_error (los L) o) as [r|] eqn:E; auto.
     apply Kinv_set_obj; auto. cbn. destruct K as [_ [_ [K2 _]]]. eauto.
-  - (* Implementer *) apply Kinv_l_declare; auto.
-  - (* ImplementerOnly *) apply Kinv_l_only; auto.
-  - apply Kinv_l_declare; auto.
-  - apply Kinv_l_only; auto.
-  - apply Kinv_l_declare; auto.
-  - apply Kinv_l_object; auto. intros; apply incl_refl.
-  - apply Kinv_l_object; auto. intros a k H. apply incl_app; [apply incl_appl; auto|apply incl_appr; apply incl_refl].
+  - (* Implementer *) apply Kinv_l_declare; auto. apply nargs_lo_incl_hi; auto.
+  - (* ImplementerOnly *) apply Kinv_l_only; auto. apply nargs_lo_incl_hi; auto.
+  - apply Kinv_l_declare; auto. apply nargs_lo_incl_hi; auto.
+  - apply Kinv_l_only; auto. apply nargs_lo_incl_hi; auto.
+  - apply Kinv_l_declare; auto. apply incl_refl.
+  - apply Kinv_l_object; auto. intros; apply nargs_lo_incl_hi; auto.
+  - apply Kinv_l_object; auto. intros a k H. apply incl_app; [apply incl_appl; auto|apply incl_appr; apply nargs_lo_incl_hi; auto].
   - apply Kinv_l_object; auto. intros a k H. apply incl_filter_filter; auto.
-  - apply Kinv_l_object; auto. intros; apply incl_refl.
+  - apply Kinv_l_object; auto. intros; apply nargs_lo_incl_hi; auto.
 Qed.
 
 Lemma Kinv_init : Kinv linit.
@@ -318,18 +344,8 @@ Proof. induction ops as [|o ops IH]; cbn; auto. intros L K. apply IH. apply Kinv
 Lemma Kinv_lrun g ops : Kinv (lrun g ops).
 Proof. apply Kinv_fold. apply Kinv_init. Qed.
 
-Lemma lo_incl_hi_impl L c : Kinv L -> incl (impl_lo L c) (impl_hi L c).
-Proof. intros [_ [K1 _]]. apply impl_f_mono. auto. Qed.
-
 Lemma lo_incl_hi_provided g L t : Kinv L -> incl (lo_provided g L t) (hi_provided g L t).
-Proof.
-  intros K. apply closure_incl. unfold lo_direct, hi_direct. destruct t as [o|c].
-  - destruct (nth_error (los L) o) as [r|] eqn:E; [|apply incl_refl].
-    apply incl_app; [apply incl_appl|apply incl_appr; apply lo_incl_hi_impl; auto].
-    destruct K as [_ [_ [K2 _]]]. eauto.
-  - destruct (nth_error (lcs L) c) as [r|] eqn:E; [|apply incl_refl].
-    apply incl_app; [apply incl_appl|apply incl_appr, incl_refl]. destruct K as [_ [_ [_ K3]]]. eauto.
-Qed.
+Proof. intros K. apply closure_incl. apply lo_direct_incl_hi; auto. Qed.
 
 (* ------------------------------------------------------------------ model: frame lemmas *)
 
@@ -489,7 +505,8 @@ Proof. unfold cflat, cdirect. intros ->. auto. Qed.
 Lemma Inv_direct_inst g st o args : Inv g st -> Inv g (direct_inst g st o args).
 Proof.
   intros I. unfold direct_inst. destruct (nth_error (insts st) o) as [r|] eqn:E; auto.
-  destruct (i_live r); auto. destruct (provides g st (i_cls r) args) as [st1 k] eqn:P.
+  destruct (i_live r && negb (class_builtin st (i_cls r))); auto.
+  destruct (provides g st (i_cls r) args) as [st1 k] eqn:P.
   destruct (provides_spec _ _ _ _ _ _ I P) as [Hk [Hc [Hi Hca]]].
   destruct I as [W I1 I2 I3]. split; cbn [classes insts cache]; rewrite ?Hc.
   - auto.
@@ -504,6 +521,7 @@ Qed.
 Lemma Inv_direct_cls g st c args : Inv g st -> Inv g (direct_cls g st c args).
 Proof.
   intros I. unfold direct_cls. destruct (nth_error (classes st) c) as [r|] eqn:E; auto.
+  destruct (c_builtin r); auto.
   destruct I as [W I1 I2 I3]. split; cbn [classes insts cache]; rewrite ?length_upd; auto.
   - intros d rd b Hd Hin. apply nth_error_upd_inv in Hd. destruct Hd as [[-> [-> _]]|[_ Hd]].
     + cbn in Hin. eapply W; eauto.
@@ -523,7 +541,7 @@ Proof.
   - (* NewClass *) destruct I as [W I1 I2 I3]. split; cbn [classes insts cache]; rewrite ?app_length; cbn [length].
     + intros c r b Hc Hin. apply nth_error_snoc in Hc. destruct Hc as [[_ Hc]|[-> ->]].
       * eapply W; eauto.
-      * cbn in Hin. apply filter_In in Hin. destruct Hin as [_ Hin]. apply Nat.ltb_lt in Hin. auto.
+      * cbn in Hin. rewrite In_dedup in Hin. apply filter_In in Hin. destruct Hin as [_ Hin]. apply Nat.ltb_lt in Hin. auto.
     + intros o r Ho. apply I1 in Ho. lia.
     + intros k v Hin. apply I2 in Hin. lia.
     + intros k v Hin. rewrite (I3 _ _ Hin). unfold cflat, cdirect. cbn [classes].
@@ -548,7 +566,7 @@ Definition kept_of (r : irec) : list iface := match i_prov r with Some k => k | 
 
 Definition crel (r : crec) (l : lcls) : Prop :=
   c_bases r = lc_bases l /\ c_inherit r = lc_inherit l /\
-  same (c_decl r) (lc_kept l) /\ (same (c_cprov r) (lc_okept l) /\ meta_direct r = lc_meta l).
+  same (c_decl r) (lc_kept l) /\ (same (c_cprov r) (lc_okept l) /\ meta_direct r = lc_meta l /\ c_builtin r = lc_builtin l).
 Definition irel (r : irec) (l : lobj) : Prop :=
   i_cls r = lo_cls l /\ i_live r = lo_live l /\ same (kept_of r) (lo_kept l).
 Definition R (st : state) (L : ledger) : Prop :=
@@ -573,13 +591,13 @@ Proof. reflexivity. Qed.
 Lemma R_set_class ev st L c r' l' : R st L -> crel r' l' -> R (set_class ev st c r') (lset_cls L c l').
 Proof. intros [H1 H2] H. split; cbn; auto. apply Forall2_upd; auto. Qed.
 
-Lemma R_class_ordered g st L c b a l :
-  R st L -> same (b ++ a) l -> R (class_ordered true g st c b a) (l_declare g L c l).
+Lemma R_class_ordered g st L c b a lh l :
+  R st L -> same (b ++ a) l -> R (class_ordered true g st c b a) (l_declare g L c lh l).
 Proof.
   intros HR Hs. unfold class_ordered, l_declare. destruct (nth_error (classes st) c) as [r|] eqn:E.
   - destruct (Forall2_nth_l _ _ _ _ _ (proj1 HR) E) as [rl [E' [Hb [Hi [Hd Hp]]]]]. rewrite E'.
     apply R_set_class; auto.
-    split; [|split; [|split]]; cbn [c_bases c_decl c_inherit c_cprov c_meta lc_bases lc_kept lc_inherit lc_oasked lc_okept lc_meta]; auto.
+    split; [|split; [|split]]; cbn [c_bases c_decl c_inherit c_cprov c_meta c_builtin lc_bases lc_kept lc_inherit lc_oasked lc_okept lc_meta lc_builtin]; auto.
     intro x; split; intro H.
     + rewrite In_dedup in H. rewrite !in_app_iff, !In_keepnew in H. rewrite fresh_now_keepnew.
       apply in_app_iff. rewrite In_keepnew. pose proof (Hs x) as Hx. rewrite in_app_iff in Hx.
@@ -595,27 +613,36 @@ Proof.
   intro x. rewrite in_app_iff, !filter_In, negb_true_iff. destruct (p x); intuition congruence.
 Qed.
 
-Lemma R_class_implements g st L c l : R st L -> R (class_implements true g st c l) (l_declare g L c l).
+Lemma R_class_implements g st L c l lh ll :
+  R st L -> same l ll -> R (class_implements true g st c l) (l_declare g L c lh ll).
 Proof.
-  intros HR. unfold class_implements. destruct (nth_error (classes st) c) as [r|] eqn:E.
-  - apply R_class_ordered; auto. apply same_filter_split.
+  intros HR Hs. unfold class_implements. destruct (nth_error (classes st) c) as [r|] eqn:E.
+  - apply R_class_ordered; auto. eapply same_trans; [apply same_filter_split|auto].
   - unfold l_declare. rewrite (Forall2_nth_none _ _ _ _ (proj1 HR) E). auto.
 Qed.
 
-Lemma R_class_only g st L c l : R st L -> R (class_only true g st c l) (l_only L c l).
+Lemma R_class_only g st L c l lh ll :
+  R st L -> same l ll -> R (class_only true g st c l) (l_only L c lh ll).
 Proof.
-  intros HR. unfold class_only, l_only. destruct (nth_error (classes st) c) as [r|] eqn:E.
+  intros HR Hs. unfold class_only, l_only. destruct (nth_error (classes st) c) as [r|] eqn:E.
   - destruct (Forall2_nth_l _ _ _ _ _ (proj1 HR) E) as [rl [E' [Hb [Hi [Hd Hp]]]]]. rewrite E'.
     pose proof (nth_error_lt _ _ _ E) as Hlt.
     unfold class_ordered. cbn [set_class classes]. rewrite nth_error_upd_eq by auto.
     unfold set_class. cbn [classes insts cache]. rewrite upd_upd.
     destruct HR as [H1 H2]. split; cbn [classes insts lset_cls lcs los]; auto.
     apply Forall2_upd; auto.
-    split; [|split; [|split]]; cbn [c_bases c_decl c_inherit c_cprov c_meta lc_bases lc_kept lc_inherit lc_oasked lc_okept lc_meta]; auto.
-    assert (Ec : cflat g (mkS (upd (classes st) c (mkC (c_bases r) [] false (c_cprov r) (c_meta r))) (insts st)
+    split; [|split; [|split]]; cbn [c_bases c_decl c_inherit c_cprov c_meta c_builtin lc_bases lc_kept lc_inherit lc_oasked lc_okept lc_meta lc_builtin]; auto.
+    assert (Ec : cflat g (mkS (upd (classes st) c (mkC (c_bases r) [] false (c_cprov r) (c_meta r) (c_builtin r))) (insts st)
                               (evict true (classes st) c (cache st))) c = []).
     { unfold cflat, cdirect. cbn [classes cdirect_f]. rewrite nth_error_upd_eq by auto. reflexivity. }
-    rewrite Ec, !keepnew_nil, !app_nil_r. apply same_dedup.
+    rewrite Ec, !keepnew_nil, !app_nil_r. eapply same_trans; [apply same_dedup|auto].
+  - rewrite (Forall2_nth_none _ _ _ _ (proj1 HR) E). auto.
+Qed.
+
+Lemma class_builtin_R st L c : R st L -> class_builtin st c = lclass_builtin L c.
+Proof.
+  intros HR. unfold class_builtin, lclass_builtin. destruct (nth_error (classes st) c) as [r|] eqn:E.
+  - destruct (Forall2_nth_l _ _ _ _ _ (proj1 HR) E) as [rl [E' [_ [_ [_ [_ [_ Hb]]]]]]]. rewrite E'. auto.
   - rewrite (Forall2_nth_none _ _ _ _ (proj1 HR) E). auto.
 Qed.
 
@@ -625,15 +652,16 @@ Lemma R_direct_inst g st L o args fa fk :
   R (direct_inst g st o args) (l_object g L (TInst o) fa fk).
 Proof.
   intros HR I Ha. unfold direct_inst, l_object. destruct (nth_error (insts st) o) as [ri|] eqn:E.
-  - destruct (Forall2_nth_l _ _ _ _ _ (proj2 HR) E) as [rl [E' [Hc [Hl Hk]]]]. rewrite E', <- Hl.
-    destruct (i_live ri); auto.
+  - destruct (Forall2_nth_l _ _ _ _ _ (proj2 HR) E) as [rl [E' [Hc [Hl Hk]]]].
+    rewrite E', <- Hl, <- Hc, <- (class_builtin_R st L _ HR).
+    destruct (i_live ri && negb (class_builtin st (i_cls ri))); auto.
     destruct (provides g st (i_cls ri) args) as [st1 k] eqn:P.
     destruct (provides_spec _ _ _ _ _ _ I P) as [Hkk [Hcs [His _]]].
     destruct HR as [H1 H2]. split; cbn [classes insts lset_obj lcs los]; rewrite ?Hcs, ?His; auto.
     apply Forall2_upd; auto. repeat split; cbn [i_cls i_live kept_of i_prov lo_cls lo_live lo_kept]; auto; intro H.
-    + rewrite fresh_now_keepnew, <- Hc. subst k.
+    + rewrite fresh_now_keepnew. subst k.
       eapply (keepnew_same _ _ _ _ (cflat_same g st L (i_cls ri) (conj H1 H2)) (Ha _ _ eq_refl E')); auto.
-    + rewrite fresh_now_keepnew, <- Hc in H. subst k.
+    + rewrite fresh_now_keepnew in H. subst k.
       eapply (keepnew_same _ _ _ _ (cflat_same g st L (i_cls ri) (conj H1 H2)) (Ha _ _ eq_refl E')); auto.
   - rewrite (Forall2_nth_none _ _ _ _ (proj2 HR) E). auto.
 Qed.
@@ -644,9 +672,10 @@ Lemma R_direct_cls g st L c args fa fk :
   R (direct_cls g st c args) (l_object g L (TCls c) fa fk).
 Proof.
   intros HR Ha. unfold direct_cls, l_object. destruct (nth_error (classes st) c) as [rc|] eqn:E.
-  - destruct (Forall2_nth_l _ _ _ _ _ (proj1 HR) E) as [rl [E' [Hb [Hi [Hd [Hp Hm]]]]]]. rewrite E'.
+  - destruct (Forall2_nth_l _ _ _ _ _ (proj1 HR) E) as [rl [E' [Hb [Hi [Hd [Hp [Hm Hbi]]]]]]]. rewrite E', <- Hbi.
+    destruct (c_builtin rc) eqn:Ebi; auto.
     destruct HR as [H1 H2]. split; cbn [classes insts lset_cls lcs los]; auto.
-    apply Forall2_upd; auto. split; [|split; [|split; [|split]]]; cbn; auto.
+    apply Forall2_upd; auto. split; [|split; [|split; [|split; [|split]]]]; cbn; auto.
     rewrite Hm. apply same_filter; auto. apply (Ha _ _ eq_refl E').
   - rewrite (Forall2_nth_none _ _ _ _ (proj1 HR) E). auto.
 Qed.
@@ -666,18 +695,46 @@ Proof.
 Qed.
 
 Lemma R_directly g st L t fa fk (args : list iface) :
-  R st L -> Inv g st ->
-  (same args (fk (lo_dpb L t)) /\ same args (fa (lo_dpb L t))) ->
+  R st L -> Inv g st -> same args (fk (lo_dpb L t)) ->
   R (directly g st t args) (l_object g L t fa fk).
 Proof.
-  intros HR I [Hk Ha]. destruct t as [o|c]; cbn [directly].
+  intros HR I Hk. destruct t as [o|c]; cbn [directly].
   - apply R_direct_inst; auto. intros ri rl E E'. unfold lo_dpb in Hk. rewrite E' in Hk. auto.
   - apply R_direct_cls; auto. intros rc rl E E'. unfold lo_dpb in Hk. rewrite E' in Hk. auto.
 Qed.
 
+Lemma spec_direct_same st L t : R st L -> same (spec_direct st t) (lo_direct L t).
+Proof.
+  intros HR. unfold spec_direct, lo_direct. destruct t as [o|c].
+  - destruct (nth_error (insts st) o) as [ri|] eqn:E.
+    + destruct (Forall2_nth_l _ _ _ _ _ (proj2 HR) E) as [rl [E' [Hc [_ Hk]]]]. rewrite E', <- Hc.
+      pose proof (sim_direct _ _ (proj1 HR) (S (i_cls ri)) (i_cls ri)) as Hs.
+      unfold kept_of in Hk. destruct (i_prov ri).
+      * apply same_app; auto.
+      * intro x. rewrite in_app_iff. specialize (Hk x). specialize (Hs x). cbn in Hk.
+        unfold cdirect, impl_lo. tauto.
+    + rewrite (Forall2_nth_none _ _ _ _ (proj2 HR) E). apply same_refl.
+  - destruct (nth_error (classes st) c) as [rc|] eqn:E.
+    + destruct (Forall2_nth_l _ _ _ _ _ (proj1 HR) E) as [rl [E' [_ [_ [_ [Hp [Hm _]]]]]]]. rewrite E', Hm.
+      apply same_app; auto. apply same_refl.
+    + rewrite (Forall2_nth_none _ _ _ _ (proj1 HR) E). apply same_refl.
+Qed.
+
+Lemma nargs_same st L l : R st L -> same (nargs st l) (nargs_lo L l).
+Proof.
+  intros HR x. unfold nargs, nargs_lo. rewrite !in_flat_map.
+  assert (H : forall a, same (narg st a) (narg_lo L a)).
+  { intros a. destruct a; cbn [narg narg_lo].
+    - apply same_refl.
+    - apply dpb_same; auto.
+    - eapply same_trans; [apply same_dedup|apply spec_direct_same; auto]. }
+  split; intros [a [Ha Hx]]; exists a; split; auto; apply (H a); auto.
+Qed.
+
 Lemma R_step g st L o : R st L -> Inv g st -> R (step true g st o) (lstep g L o).
 Proof.
-  intros HR I. destruct o; cbn [step lstep];
+  intros HR I. pose proof (fun l => nargs_same st L l HR) as Hn.
+  destruct o; cbn [step lstep];
     try (apply R_class_implements; auto); try (apply R_class_only; auto).
   - (* NewClass *) destruct HR as [H1 H2]. split; cbn; auto. apply Forall2_app; auto.
     constructor; [|constructor]. rewrite (F2_length _ _ _ H1). repeat split; cbn; auto; apply same_refl.
@@ -689,12 +746,10 @@ Proof.
       destruct HR as [H1 H2]. split; cbn; auto. apply Forall2_upd; auto. repeat split; cbn; auto; apply Hk.
     + rewrite (Forall2_nth_none _ _ _ _ (proj2 HR) E). auto.
   - (* ClassImplementsFirst *) apply R_class_ordered; auto. apply same_refl.
-  - (* DirectlyProvides *) apply R_directly; auto. split; apply same_refl.
-  - (* AlsoProvides *) apply R_directly; auto.
-    split; apply same_app; try apply same_refl; apply dpb_same; auto.
-  - (* NoLongerProvides *) apply R_directly; auto.
-    split; apply same_filter; auto; apply dpb_same; auto.
-  - (* Provider *) apply R_directly; auto. split; apply same_refl.
+  - (* DirectlyProvides *) apply R_directly; auto.
+  - (* AlsoProvides *) apply R_directly; auto. apply same_app; auto. apply dpb_same; auto.
+  - (* NoLongerProvides *) apply R_directly; auto. apply same_filter; auto; apply dpb_same; auto.
+  - (* Provider *) apply R_directly; auto.
 Qed.
 
 Lemma R_init : R init linit.
@@ -710,23 +765,6 @@ Lemma R_run g ops : R (run true g ops) (lrun g ops).
 Proof. apply R_fold; [apply R_init|apply Inv_init]. Qed.
 
 (* ------------------------------------------------------------------ the model answers the lower bound *)
-
-Lemma spec_direct_same st L t : R st L -> same (spec_direct st t) (lo_direct L t).
-Proof.
-  intros HR. unfold spec_direct, lo_direct. destruct t as [o|c].
-  - destruct (nth_error (insts st) o) as [ri|] eqn:E.
-    + destruct (Forall2_nth_l _ _ _ _ _ (proj2 HR) E) as [rl [E' [Hc [_ Hk]]]]. rewrite E', <- Hc.
-      pose proof (sim_direct _ _ (proj1 HR) (S (i_cls ri)) (i_cls ri)) as Hs.
-      unfold kept_of in Hk. destruct (i_prov ri).
-      * apply same_app; auto.
-      * intro x. rewrite in_app_iff. specialize (Hk x). specialize (Hs x). cbn in Hk.
-        unfold cdirect, impl_lo. tauto.
-    + rewrite (Forall2_nth_none _ _ _ _ (proj2 HR) E). apply same_refl.
-  - destruct (nth_error (classes st) c) as [rc|] eqn:E.
-    + destruct (Forall2_nth_l _ _ _ _ _ (proj1 HR) E) as [rl [E' [_ [_ [_ [Hp Hm]]]]]]. rewrite E', Hm.
-      apply same_app; auto. apply same_refl.
-    + rewrite (Forall2_nth_none _ _ _ _ (proj1 HR) E). apply same_refl.
-Qed.
 
 Lemma provided_same g st L t : R st L -> same (provided g st t) (lo_provided g L t).
 Proof. intros HR. apply closure_same. apply spec_direct_same. auto. Qed.
@@ -830,7 +868,7 @@ Lemma directly_frame g st t args :
 Proof.
   destruct t as [o|c]; cbn [directly].
   - unfold direct_inst. destruct (nth_error (insts st) o) as [r|] eqn:E; [|split; auto].
-    destruct (i_live r); [|split; auto].
+    destruct (i_live r && negb (class_builtin st (i_cls r))); [|split; auto].
     destruct (provides g st (i_cls r) args) as [st1 k] eqn:P.
     destruct (provides_frame _ _ _ _ _ _ P) as [Hc Hi].
     split.
@@ -838,7 +876,8 @@ Proof.
     + intros [o'|c'] Hne; unfold spec_direct, dpb, cdirect; cbn [classes insts]; rewrite ?Hc, ?Hi; auto.
       rewrite nth_error_upd_ne by congruence. auto.
   - unfold direct_cls. destruct (nth_error (classes st) c) as [r|] eqn:E; [|split; auto].
-    assert (Hd : forall f d, cdirect_f (upd (classes st) c (mkC (c_bases r) (c_decl r) (c_inherit r) (keepnew (closure g (meta_direct r)) args) (c_meta r))) f d
+    destruct (c_builtin r) eqn:Ebi; [split; auto|].
+    assert (Hd : forall f d, cdirect_f (upd (classes st) c (mkC (c_bases r) (c_decl r) (c_inherit r) (keepnew (closure g (meta_direct r)) args) (c_meta r) false)) f d
                              = cdirect_f (classes st) f d)
       by (intros; eapply cdirect_f_upd_same; eauto).
     split.
@@ -921,27 +960,27 @@ Lemma lagree_cls_only o L L' (F : ledger -> ledger) :
   lagree o (F L) (F L').
 Proof. intros [A [B C]] H1 H2. split; [|split]; rewrite ?H1; auto. Qed.
 
-Lemma l_declare_los g L c l : los (l_declare g L c l) = los L.
+Lemma l_declare_los g L c lh l : los (l_declare g L c lh l) = los L.
 Proof. unfold l_declare. destruct (nth_error (lcs L) c); auto. Qed.
-Lemma l_declare_lcs g L L' c l : lcs L = lcs L' -> lcs (l_declare g L c l) = lcs (l_declare g L' c l).
+Lemma l_declare_lcs g L L' c lh l : lcs L = lcs L' -> lcs (l_declare g L c lh l) = lcs (l_declare g L' c lh l).
 Proof.
   intros H. unfold l_declare. rewrite <- H. destruct (nth_error (lcs L) c); auto. cbn.
   rewrite (fresh_now_lcs g L L') by auto. rewrite H. auto.
 Qed.
-Lemma l_only_los L c l : los (l_only L c l) = los L.
+Lemma l_only_los L c lh l : los (l_only L c lh l) = los L.
 Proof. unfold l_only. destruct (nth_error (lcs L) c); auto. Qed.
-Lemma l_only_lcs L L' c l : lcs L = lcs L' -> lcs (l_only L c l) = lcs (l_only L' c l).
+Lemma l_only_lcs L L' c lh l : lcs L = lcs L' -> lcs (l_only L c lh l) = lcs (l_only L' c lh l).
 Proof. intros H. unfold l_only. rewrite <- H. destruct (nth_error (lcs L) c); auto. cbn. rewrite H. auto. Qed.
 
-Lemma lagree_declare g o L L' c l : lagree o L L' -> lagree o (l_declare g L c l) (l_declare g L' c l).
+Lemma lagree_declare g o L L' c lh l : lagree o L L' -> lagree o (l_declare g L c lh l) (l_declare g L' c lh l).
 Proof.
-  intros H. apply (lagree_cls_only o L L' (fun M => l_declare g M c l)); auto.
+  intros H. apply (lagree_cls_only o L L' (fun M => l_declare g M c lh l)); auto.
   - intros; apply l_declare_los.
   - intros; apply l_declare_lcs; auto.
 Qed.
-Lemma lagree_only o L L' c l : lagree o L L' -> lagree o (l_only L c l) (l_only L' c l).
+Lemma lagree_only o L L' c lh l : lagree o L L' -> lagree o (l_only L c lh l) (l_only L' c lh l).
 Proof.
-  intros H. apply (lagree_cls_only o L L' (fun M => l_only M c l)); auto.
+  intros H. apply (lagree_cls_only o L L' (fun M => l_only M c lh l)); auto.
   - intros; apply l_only_los.
   - intros; apply l_only_lcs; auto.
 Qed.
@@ -950,15 +989,17 @@ Lemma lagree_object_cls g o L L' c fa fk :
   lagree o L L' -> lagree o (l_object g L (TCls c) fa fk) (l_object g L' (TCls c) fa fk).
 Proof.
   intros H. apply (lagree_cls_only o L L' (fun M => l_object g M (TCls c) fa fk)); auto.
-  - intros M. cbn. destruct (nth_error (lcs M) c); auto.
-  - intros M M' E. cbn. rewrite <- E. destruct (nth_error (lcs M) c); auto. cbn. rewrite E. auto.
+  - intros M. cbn. destruct (nth_error (lcs M) c) as [r|]; auto. destruct (lc_builtin r); auto.
+  - intros M M' E. cbn. rewrite <- E. destruct (nth_error (lcs M) c) as [r|]; auto.
+    destruct (lc_builtin r); auto. cbn. rewrite E. auto.
 Qed.
 
 Lemma lagree_object_same g o L L' fa fk :
   lagree o L L' -> lagree o (l_object g L (TInst o) fa fk) (l_object g L' (TInst o) fa fk).
 Proof.
   intros [A [B C]]. cbn [l_object]. rewrite <- C. destruct (nth_error (los L) o) as [r|] eqn:E.
-  - destruct (lo_live r); [|repeat split; auto; congruence].
+  - assert (Eb : lclass_builtin L' (lo_cls r) = lclass_builtin L (lo_cls r)) by (unfold lclass_builtin; rewrite A; auto).
+    rewrite Eb. destruct (lo_live r && negb (lclass_builtin L (lo_cls r))); [|repeat split; auto; congruence].
     rewrite (fresh_now_lcs g L L') by auto.
     split; [|split]; cbn; auto.
     + rewrite !length_upd. auto.
@@ -970,7 +1011,7 @@ Lemma lagree_object_other_l g o o1 L L' fa fk :
   o1 <> o -> lagree o L L' -> lagree o (l_object g L (TInst o1) fa fk) L'.
 Proof.
   intros Hne [A [B C]]. cbn [l_object]. destruct (nth_error (los L) o1) as [r|]; [|repeat split; auto].
-  destruct (lo_live r); [|repeat split; auto].
+  destruct (lo_live r && negb (lclass_builtin L (lo_cls r))); [|repeat split; auto].
   split; [|split]; cbn; auto.
   - rewrite length_upd. auto.
   - rewrite nth_error_upd_ne by auto. auto.
@@ -999,17 +1040,28 @@ Proof.
     destruct H1 as [A1 [B1 C1]]. destruct H2 as [A2 [B2 C2]]. split; [|split]; congruence.
 Qed.
 
-Lemma lstep_agree_keep g o L L' p :
-  lagree o L L' -> other_inst_decl o p = false -> lagree o (lstep g L p) (lstep g L' p).
+Lemma nargs_agree o L L' l : lagree o L L' -> forallb (arg_local o) l = true ->
+  nargs_lo L l = nargs_lo L' l /\ nargs_hi L l = nargs_hi L' l.
 Proof.
-  intros H Hp.
+  intros [A [B C]] Hl. unfold nargs_lo, nargs_hi. rewrite forallb_forall in Hl.
+  split; apply flat_map_ext_in; intros a Ha; specialize (Hl a Ha); destruct a as [i|[o1|c1]|[o1|c1]];
+    cbn [narg_lo narg_hi lo_dpb hi_dpb lo_direct hi_direct arg_local] in *; auto;
+    try (apply Nat.eqb_eq in Hl; subst o1); unfold impl_lo, impl_hi; rewrite ?C, ?A; auto.
+Qed.
+
+Lemma lstep_agree_keep g o L L' p :
+  lagree o L L' -> other_inst_decl o p = false -> op_local o p = true -> lagree o (lstep g L p) (lstep g L' p).
+Proof.
+  intros H Hp Hloc.
   assert (Hobj : forall t fa fk, (match t with TInst o' => negb (Nat.eqb o' o) | _ => false end) = false ->
                  lagree o (l_object g L t fa fk) (l_object g L' t fa fk)).
   { intros [o1|c1] fa fk Ht.
     - apply negb_false_iff, Nat.eqb_eq in Ht. subst. apply lagree_object_same; auto.
     - apply lagree_object_cls; auto. }
-  destruct p; unfold other_inst_decl in Hp; cbn [decl_target] in Hp; cbn [lstep]; auto;
-    try (apply lagree_declare; auto); try (apply lagree_only; auto).
+  unfold op_local in Hloc.
+  destruct p; unfold other_inst_decl in Hp; cbn [decl_target] in Hp; cbn [op_args] in Hloc; cbn [lstep]; auto;
+    try (destruct (nargs_agree o L L' l H Hloc) as [E1 E2]; rewrite <- E1, <- E2);
+    try (apply lagree_declare; auto); try (apply lagree_only; auto); try (apply Hobj; auto; fail).
   - (* NewClass *) destruct H as [A [B C]]. split; [|split]; cbn; auto. rewrite A. auto.
   - (* NewInstance *) destruct H as [A [B C]]. rewrite <- A.
     destruct (Nat.ltb c (length (lcs L))); [|repeat split; auto].
@@ -1028,13 +1080,15 @@ Proof.
 Qed.
 
 Lemma lagree_fold g o ops : forall L L', lagree o L L' ->
+  forallb (fun p => other_inst_decl o p || op_local o p) ops = true ->
   lagree o (fold_left (lstep g) ops L)
            (fold_left (lstep g) (filter (fun p => negb (other_inst_decl o p)) ops) L').
 Proof.
-  induction ops as [|p ops IH]; cbn [fold_left filter]; auto. intros L L' H.
-  destruct (other_inst_decl o p) eqn:E; cbn [negb].
-  - apply IH. apply lstep_agree_skip; auto.
-  - cbn [fold_left]. apply IH. apply lstep_agree_keep; auto.
+  induction ops as [|p ops IH]; cbn [fold_left filter forallb]; auto. intros L L' H Hl.
+  apply andb_true_iff in Hl. destruct Hl as [Hp Hl].
+  destruct (other_inst_decl o p) eqn:E; cbn [negb orb] in *.
+  - apply IH; auto. apply lstep_agree_skip; auto.
+  - cbn [fold_left]. apply IH; auto. apply lstep_agree_keep; auto.
 Qed.
 
 Lemma lagree_lo g o L L' : lagree o L L' ->
@@ -1044,14 +1098,15 @@ Proof.
 Qed.
 
 Lemma history_non_interference_lemma g ops o :
+  forallb (fun p => other_inst_decl o p || op_local o p) ops = true ->
   let ops' := filter (fun p => negb (other_inst_decl o p)) ops in
   same (provided g (run true g ops) (TInst o)) (provided g (run true g ops') (TInst o)) /\
   same (dpb (run true g ops) (TInst o)) (dpb (run true g ops') (TInst o)).
 Proof.
-  intros ops'.
+  intros Hloc ops'.
   destruct (model_is_lower_bound_lemma g ops) as [H1 [_ H3]].
   destruct (model_is_lower_bound_lemma g ops') as [H1' [_ H3']].
-  destruct (lagree_lo g o _ _ (lagree_fold g o ops linit linit (lagree_refl o linit))) as [E1 E2].
+  destruct (lagree_lo g o _ _ (lagree_fold g o ops linit linit (lagree_refl o linit) Hloc)) as [E1 E2].
   fold (lrun g ops) in E1, E2. fold ops' in E1, E2. fold (lrun g ops') in E1, E2.
   split.
   - eapply same_trans; [apply H1|]. rewrite E1. apply same_sym, H1'.
@@ -1097,8 +1152,8 @@ Qed.
    classImplementsOnly(C, I1); b = C(); directlyProvides(b, I0) *)
 Definition f1_graph : igraph := [[]; []].
 Definition f1_history : list op :=
-  [NewClass [] None; Implementer 0 [0]; NewInstance 0; DirectlyProvides (TInst 0) [0];
-   ClassImplementsOnly 0 [1]; NewInstance 0; DirectlyProvides (TInst 1) [0]].
+  [NewClass [] None false; Implementer 0 [AI 0]; NewInstance 0; DirectlyProvides (TInst 0) [AI 0];
+   ClassImplementsOnly 0 [AI 1]; NewInstance 0; DirectlyProvides (TInst 1) [AI 0]].
 
 Lemma stale_cache_refuted_lemma :
   exists g ops o,
